@@ -99,6 +99,8 @@ def getDotted : Val → List String → Res Val
   | .cell .none, _ :: _ => throw Err.type
   | .cell (.int _), _ :: _ => throw Err.type
   | .cell (.flt _), _ :: _ => throw Err.type
+  | .tuple [], _ :: _ => throw Err.key                      -- `dict(())` is `{}`
+  | .tuple (.cell (.int _) :: _), _ :: _ => throw Err.type    -- `dict((1, 2))`
   | _, _ :: _ => throw Err.other
 
 /-- `tree_getitem(tree, path)` on a tree of `dictattr` / `Dict` nodes (`dotted = true`; for plain dicts `dotted = false`
